@@ -3,6 +3,20 @@
 REFLECT = "Go reflect / runtime semantics as specified in the model (DESIGN.md 3.4)"
 
 PROPS = {
+    "C13": {
+        "gens": ["EnvLocks"],
+        "lean": "Anko.Props.C13",
+        "streams": [{"name": "envconc", "n_quick": 300, "n_thorough": 3000, "model": False, "race": True,
+                     "race_n_quick": 60, "race_n_thorough": 600}],
+        "trusted": ["sync.RWMutex implements the occupancy specification of lean/Anko/Model/Lts.lean (many readers or one writer)",
+                    "the lock-region extractor tools/cmd/extract/envlocks.go (statement-order walk of env/*.go; unknown statement shapes are extraction errors)",
+                    "Go race detector and scheduler for the stress part"],
+        "assumptions": ["operations are region-atomic: their effect on a scope's tables happens inside one locked region (fact 1 + mutual exclusion); "
+                        "SetValue/GetValue walking to a READ-ONLY parent and DeleteGlobal (check region + delete region) are multi-region: covered by the oracle only",
+                        "memory-model level behaviour is the race detector's domain"],
+        "partial": ["sequential-consistency theorem is stated at region-atomic granularity; the schedule-by-schedule correspondence with the real code under a controlled "
+                    "scheduler (go build -overlay) is not built - real concurrent runs are checked against all sequential orders instead"],
+    },
     "C12": {
         "gens": [],
         "lean": "Anko.Props.C12",
@@ -142,6 +156,18 @@ PROPS = {
 
 # Texts for MANIFEST.json (level_claimed.text, level_note, technique, design_ref)
 MANIFEST_TEXT = {
+    "C13": {
+        "text": "Machine-checked (Lean 4): (1) `decide` over lock-region facts REGENERATED from env/*.go on every run - every access of an Env "
+                "method to the shared tables happens while the scope's RWMutex is held, writes under the write lock; (2) for the RWMutex "
+                "occupancy LTS, by induction over arbitrary event sequences (any number of goroutines, any interleaving), a writer is "
+                "always alone, so no two conflicting table accesses are ever enabled together, readers share, whoever is inside can "
+                "leave; (3) with region-atomic operations every interleaving is a merge executed one at a time, respecting each "
+                "goroutine's order; Copy is a consistent snapshot. Search/oracle: 2-3 goroutines x 2-3 operations on a shared scope, "
+                "repeated, every observed outcome must equal one of the enumerated sequential orders; stress under the race detector.",
+        "note": "Trusted: Lean kernel; RWMutex specification; extractor; Go race detector. Follows fix 7ed1036 (symbol listings read the table length under the lock).",
+        "technique": "Lean 4 proof (LTS invariant by induction; decide over regenerated lock regions) + sequential-consistency search and race detection",
+        "design_ref": "DESIGN.md section 6 (C13)",
+    },
     "C12": {
         "text": "Machine-checked proofs (Lean 4) over a heap-of-scopes model of the whole env API: names with '.' are rejected, every failing "
                 "call leaves the heap exactly unchanged (also lifted to arbitrary histories), define/delete/defineType touch only the "
